@@ -76,6 +76,18 @@ def gen_cases(ctx):
             yield {"kind": "solve", "instance": gen_inst(rng, big=i % 10 == 0),
                    "seed": rng.randrange(2**31), "call": rng.random() < 0.3,
                    "tiny_limit": i % 25 == 24}
+    # larger random instances under a short time limit: the solver usually stops with
+    # status "feasible", where metadata and schedule must still agree
+    for i in range(ctx.scale(4, 60)):
+        inst = gen.gen_instance(rng, "classic", max_jobs=1, max_machines=1)
+        nj, nm = rng.choice([(15, 10), (20, 10), (20, 15)])
+        inst = {"cls": "large", "durations": [], "machines": []}
+        for _ in range(nj):
+            order = list(range(nm)); rng.shuffle(order)
+            inst["machines"].append([[m] for m in order])
+            inst["durations"].append([rng.randint(1, 99) for _ in order])
+        yield {"kind": "limited", "instance": inst, "seed": rng.randrange(2**31),
+               "limit": rng.choice([0.3, 0.6])}
     names = BENCH_QUICK if ctx.tier == "quick" else BENCH_THOROUGH
     for i, n in enumerate(names):
         if i % ctx.nshards == ctx.shard:
@@ -163,6 +175,23 @@ def run_case(ctx, case):
         if inst["cls"] == "recirc":
             ctx.count("recirc_instances")
         ctx.note_case(case, gen.competing(inst), fingerprint=str(hash(gen.fingerprint(inst))))
+    elif kind == "limited":
+        inst = case["instance"]
+        instance = gen.build(inst)
+        try:
+            S = ORToolsSolver(max_time_in_seconds=case["limit"]).solve(instance)
+        except NoSolutionFoundError:
+            ctx.count("no_solution_under_short_limit")
+            ctx.note_case(case, True, fingerprint=str(hash(gen.fingerprint(inst))))
+            return
+        except Exception as e:
+            ctx.violation("c03_solver_raised", {"error": repr(e)[:300]})
+            return
+        judge(ctx, inst, instance, S, f"large instance, {case['limit']} s limit",
+              expect_optimal_oracle=False, time_limited=True)
+        ctx.count("solves")
+        ctx.count("status_" + str(S.metadata.get("status")))
+        ctx.note_case(case, True, fingerprint=str(hash(gen.fingerprint(inst))))
     elif kind == "reuse":
         shared = ORToolsSolver()
         for k, inst in enumerate(case["instances"]):
